@@ -459,6 +459,33 @@ def summaries(repo, outdir):
                     for mm in re.finditer(pat, body):
                         line = src.count('\n', 0, i + mm.start()) + 1
                         alloc.append({'file': rel, 'fn': fn, 'line': line, 'text': mm.group(0)})
+    # pinned source regions (code the translator cannot model: transcendental window functions, table
+    # generation, the FFT core): whitespace- and comment-normalised text, hashed
+    import hashlib
+    def region_text(rel, start_pat=None):
+        raw = open(os.path.join(srcdir, rel)).read()
+        m = re.search(r'\n#\[cfg\(test\)\]\s*\nmod tests', raw)
+        if m:
+            raw = raw[:m.start()]
+        m = re.search(r'\n/// Verification hooks', raw)
+        if m:
+            raw = raw[:m.start()]
+        raw = re.sub(r'#\[cfg\(rubato_verif\)\]\s*\n[^\n]*\n', '\n', raw)
+        txt = rs2v.strip_comments(raw)
+        if start_pat:
+            m = re.search(start_pat, txt)
+            if not m:
+                return '<missing>'
+            i = txt.index('{', m.end())
+            txt = txt[m.start():rs2v.match_brace(txt, i) + 1]
+        return re.sub(r'\s+', ' ', txt).strip()
+    pinned = {}
+    for name, rel, pat in [('windows_rs', 'windows.rs', None), ('sinc_rs', 'sinc.rs', None), ('interpolation_rs', 'interpolation.rs', None),
+                           ('fft_core', 'synchro.rs', r'impl<T>\s+FftResampler<T>')]:
+        try:
+            pinned[name] = hashlib.sha256(region_text(rel, pat).encode()).hexdigest()[:32]
+        except Exception as ex:
+            pinned[name] = 'error:%r' % ex
     # Gallina summary
     def enc(items, keyf):
         return "[" + "; ".join('"%s"%%string' % keyf(x) for x in items) + "]"
@@ -468,13 +495,14 @@ def summaries(repo, outdir):
            "Definition alloc_constructs_in_monitored : list string := %s." % enc(alloc, lambda x: "%s:%s:%s" % (x['file'], x['fn'], x['text'].replace('"', ''))),
            "(* items with static / thread-local / interior-mutable / shared storage in src (tests and hooks excluded) *)",
            "Definition shared_storage_items : list string := %s." % enc(shared, lambda x: "%s:%s" % (x['file'], x['text'].replace('"', ''))),
-           ""]
+           "(* sha256 (first 32 hex digits) of comment- and whitespace-normalised source regions that are modelled by hand *)"] + \
+          ['Definition src_hash_%s : string := "%s"%%string.' % (k, v) for k, v in sorted(pinned.items())] + [""]
     path = os.path.join(outdir, 'Summary.v')
     text = "\n".join(txt)
     old = open(path).read() if os.path.exists(path) else None
     if old != text:
         open(path, 'w').write(text)
-    return {'alloc_constructs': alloc, 'shared_items': shared, 'vec_forwarding': vec_forwarding(repo)}
+    return {'alloc_constructs': alloc, 'shared_items': shared, 'vec_forwarding': vec_forwarding(repo), 'pinned_regions': pinned}
 
 
 def vec_forwarding(repo):
